@@ -6,6 +6,7 @@ pub mod c01;
 pub mod c02;
 pub mod c03;
 pub mod c05;
+pub mod c07;
 pub mod c08;
 pub mod c09;
 pub mod c11;
@@ -23,6 +24,7 @@ pub fn main() -> i32 {
     checks.extend(c02::checks());
     checks.extend(c03::checks());
     checks.extend(c05::checks());
+    checks.extend(c07::checks());
     checks.extend(c08::checks());
     checks.extend(c09::checks());
     checks.extend(c11::checks());
